@@ -439,6 +439,170 @@ fn split_local_runs(wasm: &[u8], r: &mut Rng) -> Option<Vec<u8>> {
     Some(m.finish())
 }
 
+/// the same module with a name section that also names the parameters of every imported function (local names of an import: valid, kept
+/// by the crate, and never written by text-to-binary tools)
+fn name_import_params(wasm: &[u8]) -> Option<Vec<u8>> {
+    use wasm_encoder::{IndirectNameMap, NameMap, NameSection};
+    use wasmparser::{Name, Parser, Payload, TypeRef};
+    let mut type_params: Vec<Option<u32>> = vec![];
+    let mut imported: Vec<u32> = vec![]; // type index of each imported function
+    for p in Parser::new(0).parse_all(wasm) {
+        match p.ok()? {
+            Payload::TypeSection(r) => {
+                for g in r {
+                    for st in g.ok()?.types() {
+                        type_params.push(match &st.composite_type.inner {
+                            wasmparser::CompositeInnerType::Func(f) => Some(f.params().len() as u32),
+                            _ => None,
+                        });
+                    }
+                }
+            }
+            Payload::ImportSection(r) => {
+                for i in r {
+                    if let TypeRef::Func(t) = i.ok()?.ty {
+                        imported.push(t);
+                    }
+                }
+            }
+            _ => {}
+        }
+    }
+    let mut added = IndirectNameMap::new();
+    let mut any = false;
+    for (i, t) in imported.iter().enumerate() {
+        let n = type_params.get(*t as usize).copied().flatten()?;
+        if n == 0 {
+            continue;
+        }
+        let mut m = NameMap::new();
+        for k in 0..n {
+            m.append(k, &format!("imp{i}_arg{k}"));
+        }
+        added.append(i as u32, &m);
+        any = true;
+    }
+    if !any {
+        return None;
+    }
+    let nimp = imported.len() as u32;
+    let mut ns = NameSection::new();
+    let mut wrote_locals = false;
+    let copy = |m: wasmparser::NameMap| -> Option<NameMap> {
+        let mut o = NameMap::new();
+        for x in m {
+            let x = x.ok()?;
+            o.append(x.index, x.name);
+        }
+        Some(o)
+    };
+    let icopy = |m: wasmparser::IndirectNameMap, mut o: IndirectNameMap, skip_below: u32| -> Option<IndirectNameMap> {
+        for f in m {
+            let f = f.ok()?;
+            if f.index < skip_below {
+                continue;
+            }
+            let mut inner = NameMap::new();
+            for x in f.names {
+                let x = x.ok()?;
+                inner.append(x.index, x.name);
+            }
+            o.append(f.index, &inner);
+        }
+        Some(o)
+    };
+    let mut had = false;
+    for p in Parser::new(0).parse_all(wasm) {
+        if let Payload::CustomSection(c) = p.ok()? {
+            if let wasmparser::KnownCustom::Name(nr) = c.as_known() {
+                had = true;
+                let mut subs: Vec<Name> = vec![];
+                for n in nr {
+                    subs.push(n.ok()?);
+                }
+                let mut pending = Some(added.clone());
+                for n in subs {
+                    // the local-name subsection has id 2: it goes in front of the first subsection with a larger id
+                    let after_locals = !matches!(n, Name::Module { .. } | Name::Function(_) | Name::Local(_));
+                    if after_locals && !wrote_locals {
+                        ns.locals(&pending.take()?);
+                        wrote_locals = true;
+                    }
+                    match n {
+                        Name::Module { name, .. } => {
+                            ns.module(name);
+                        }
+                        Name::Function(m) => {
+                            ns.functions(&copy(m)?);
+                        }
+                        Name::Local(m) => {
+                            ns.locals(&icopy(m, pending.take()?, nimp)?);
+                            wrote_locals = true;
+                        }
+                        Name::Label(m) => {
+                            ns.labels(&icopy(m, IndirectNameMap::new(), 0)?);
+                        }
+                        Name::Type(m) => {
+                            ns.types(&copy(m)?);
+                        }
+                        Name::Table(m) => {
+                            ns.tables(&copy(m)?);
+                        }
+                        Name::Memory(m) => {
+                            ns.memories(&copy(m)?);
+                        }
+                        Name::Global(m) => {
+                            ns.globals(&copy(m)?);
+                        }
+                        Name::Element(m) => {
+                            ns.elements(&copy(m)?);
+                        }
+                        Name::Data(m) => {
+                            ns.data(&copy(m)?);
+                        }
+                        Name::Field(m) => {
+                            ns.fields(&icopy(m, IndirectNameMap::new(), 0)?);
+                        }
+                        Name::Tag(m) => {
+                            ns.tags(&copy(m)?);
+                        }
+                        Name::Unknown { .. } => return None,
+                    }
+                }
+                if !wrote_locals {
+                    ns.locals(&pending.take()?);
+                    wrote_locals = true;
+                }
+            }
+        }
+    }
+    if !had {
+        ns.locals(&added);
+    }
+    let mut m = wasm_encoder::Module::new();
+    let mut placed = false;
+    for p in Parser::new(0).parse_all(wasm) {
+        let p = p.ok()?;
+        if let Payload::CustomSection(c) = &p {
+            if c.name() == "name" {
+                m.section(&ns);
+                placed = true;
+                continue;
+            }
+        }
+        if let Payload::CodeSectionEntry(_) = p {
+            continue;
+        }
+        if let Some((id, range)) = p.as_section() {
+            m.section(&wasm_encoder::RawSection { id, data: &wasm[range] });
+        }
+    }
+    if !placed {
+        m.section(&ns);
+    }
+    Some(m.finish())
+}
+
 /// the thirteen numbers of `Orca.Sections.Shape`, counted on a binary with wasmparser
 fn shape_of(wasm: &[u8]) -> Option<String> {
     use wasmparser::{Parser, Payload, TypeRef};
@@ -556,12 +720,22 @@ pub fn run(ctx: &mut Ctx) {
                 Ok(b) => {
                     // one generated module in three gets its local declarations split into neighbouring runs of one type
                     let split = if r.chance(1, 3) { split_local_runs(&b, &mut r) } else { None };
-                    match split {
+                    let (b, mut label) = match split {
                         Some(b2) => {
                             ctx.count("local-declarations=split-runs");
-                            (b2, mm, format!("zoo:{}+split-local-runs", feats.join("+")))
+                            (b2, format!("zoo:{}+split-local-runs", feats.join("+")))
                         }
-                        None => (b, mm, format!("zoo:{}", feats.join("+"))),
+                        None => (b, format!("zoo:{}", feats.join("+"))),
+                    };
+                    // one in three gets a name section that also names the parameters of its imported functions
+                    let named = if r.chance(1, 3) { name_import_params(&b) } else { None };
+                    match named {
+                        Some(b3) => {
+                            ctx.count("name-section=import-parameter-names");
+                            label.push_str("+import-param-names");
+                            (b3, mm, label)
+                        }
+                        None => (b, mm, label),
                     }
                 }
                 Err(e) => panic!("roundtrip: fragment text does not parse: {e}\n{text}"),
